@@ -204,22 +204,40 @@ class Ctx(object):
     def alternatives(self, body, bb, idx, op):
         """[(value term, defining block)] of an operand that is a local with several whole definitions on different paths
         (`let x = match .. { A => a, B => b }`): one entry per definition; a single entry otherwise"""
+        from .terms import T
         ix = self.eng.bx(body)
         l = op['place']['l'] if op['k'] in ('copy', 'move') and not op['place']['p'] else None
         hops = 0
+        negated = False
+
+        def neg(t):
+            if not negated:
+                return t
+            if t.tag == 'const' and isinstance(t[1], bool):
+                return T('const', not t[1])
+            if t.tag == 'unop' and t[1] == 'Not':
+                return t[2]
+            return T('unop', 'Not', t)
         while l is not None and hops < 6:
             wd = ix.whole_defs(l)
             if len(wd) == 1 and wd[0][2] == 'assign' and wd[0][3]['rv']['k'] == 'use' and wd[0][3]['rv']['op']['k'] in ('copy', 'move') and not wd[0][3]['rv']['op']['place']['p']:
                 l = wd[0][3]['rv']['op']['place']['l']
                 hops += 1
                 continue
+            # `!flag` of a flag with several definitions: the alternatives of the flag, each negated
+            if len(wd) == 1 and wd[0][2] == 'assign' and wd[0][3]['rv']['k'] == 'unop' and wd[0][3]['rv'].get('op') == 'Not' \
+                    and wd[0][3]['rv']['a']['k'] in ('copy', 'move') and not wd[0][3]['rv']['a']['place']['p'] and body.local_ty(l) == 'bool':
+                l = wd[0][3]['rv']['a']['place']['l']
+                negated = not negated
+                hops += 1
+                continue
             if len(wd) >= 2:
                 out = []
                 for (dbb, didx, kind, node) in wd:
                     if kind == 'call':
-                        out.append((self.eng.call_result(body, dbb), dbb))
+                        out.append((neg(self.eng.call_result(body, dbb)), dbb))
                     else:
-                        out.append((self.eng.rvalue(body, dbb, didx, node['rv']), dbb))
+                        out.append((neg(self.eng.rvalue(body, dbb, didx, node['rv'])), dbb))
                 return out
             break
         return [(self.eng.operand(body, bb, idx, op), bb)]
